@@ -13,7 +13,9 @@ use serde_json::{json, Value};
 use std::collections::HashMap;
 
 pub const BUDGET: u64 = 4000;
-pub const MAX_ANSWERS: usize = 30;
+pub const MAX_ANSWERS: usize = 70;
+/// step budget of the reference for the scale families (long lists, many clauses)
+pub const BUDGET_SCALE: u64 = 300_000;
 pub const REASKS: usize = 3;
 pub const MAX_VARIANT_RUNS: usize = 48;
 
@@ -24,30 +26,51 @@ pub fn enumerate(prop: &str, tier: &str, f: &mut dyn FnMut(Case)) {
             gen::lists(lv, f);
             gen::builtins(lv, f);
             gen::nfacts(lv, f);
+            crate::gen_scale::core(lv, f);
+            crate::gen_scale::names(lv, f);
             gen::core(lv, f);
         }
-        "C12" => crate::gen3::arith(lv, f),
+        "C12" => {
+            crate::gen3::arith(lv, f);
+            crate::gen_scale::builtins(lv, "arith", f);
+        }
         "C14" => crate::gen3::cmp(lv, f),
-        "C16" => crate::gen3::append(lv, f),
+        "C16" => {
+            crate::gen3::append(lv, f);
+            crate::gen_scale::builtins(lv, "append", f);
+        }
         "C17" => {
             crate::gen3::count(lv, f);
             crate::gen3::filter(lv, f);
             crate::gen3::functor(lv, f);
             crate::gen3::join(lv, f);
+            for w in ["count", "filter", "functor", "join"] {
+                crate::gen_scale::builtins(lv, w, f);
+            }
         }
         "C15" => {
             crate::gen3::append(lv, f);
             crate::gen3::filter(lv, f);
+            crate::gen_scale::builtins(lv, "append", f);
+            crate::gen_scale::builtins(lv, "filter", f);
         }
         "C08" => {
             gen::lists(lv, f);
             gen::nfacts(lv, f);
+            crate::gen_scale::alias(lv, f);
         }
-        "C02" => gen::cut(lv, f),
-        "C03" => gen::not(lv, f),
+        "C02" => {
+            crate::gen_scale::cut(lv, f);
+            gen::cut(lv, f);
+        }
+        "C03" => {
+            crate::gen_scale::not(lv, f);
+            gen::not(lv, f);
+        }
         "C04" => {
             gen::output(lv, f);
             gen::timeg(lv, f);
+            crate::gen_scale::output(lv, f);
         }
         "C05" | "C10" | "C11" => {
             let l = if tier == "thorough" { 1 } else { 0 };
@@ -61,6 +84,13 @@ pub fn enumerate(prop: &str, tier: &str, f: &mut dyn FnMut(Case)) {
             }
             gen::builtins(l, f);
             gen::nfacts(if prop == "C10" { l + 1 } else { l }, f);
+            // the scale families ride along (their histories are few)
+            crate::gen_scale::core(1, f);
+            crate::gen_scale::cut(1, f);
+            crate::gen_scale::not(1, f);
+            crate::gen_scale::output(1, f);
+            crate::gen_scale::alias(1, f);
+            crate::gen_scale::names(1, f);
             gen::core(l, f);
         }
         _ => {}
@@ -237,7 +267,8 @@ fn renamings(p: &Program, query: &T) -> Vec<(&'static str, Program)> {
     };
     let r1: Program = p.iter().map(|c| per_clause(c, &|_, n| format!("{}q", n))).collect();
     let pool2 = pool.clone();
-    let r2: Program = p.iter().map(|c| per_clause(c, &|i, _| pool2[i % pool2.len()].clone())).collect();
+    // (a clause with more variables than the pool has names continues with $P<i>: never two variables, one name)
+    let r2: Program = p.iter().map(|c| per_clause(c, &|i, _| if i < pool2.len() { pool2[i].clone() } else { format!("$P{}", i) })).collect();
     let r3: Program = p
         .iter()
         .map(|c| {
@@ -308,8 +339,10 @@ pub fn worker(prop: &str, tier: &str) {
         for q in &case.queries {
             let qn = number_query(q);
             // cut family: the set of behaviours C02 accepts (see Ref::choose)
-            let mut variants: Vec<RefResult> = if case.family == "cut" {
-                match refsolve::run_variants(&case.prog, &qn, BUDGET, MAX_ANSWERS, MAX_VARIANT_RUNS) {
+            let budget = if case.family.ends_with("scale") { BUDGET_SCALE } else { BUDGET };
+            let is_cut_family = case.family.split('@').next() == Some("cut");
+            let mut variants: Vec<RefResult> = if is_cut_family {
+                match refsolve::run_variants(&case.prog, &qn, budget, MAX_ANSWERS, MAX_VARIANT_RUNS) {
                     Some(v) => v,
                     None => {
                         w.count("skipped.too-many-cut-variants", 1);
@@ -317,7 +350,7 @@ pub fn worker(prop: &str, tier: &str) {
                     }
                 }
             } else {
-                vec![refsolve::run(&case.prog, &qn, BUDGET, MAX_ANSWERS)]
+                vec![refsolve::run(&case.prog, &qn, budget, MAX_ANSWERS)]
             };
             if variants.iter().skip(1).any(|v| v.skipped.is_some()) {
                 w.count("skipped.variant-outside", 1);
@@ -384,13 +417,21 @@ pub fn worker(prop: &str, tier: &str) {
             // solve_all / solve twins (C01 last sentence; C23 fast path)
             if (prop == "C01" || prop == "C02") && my % 8 == 0 && im.panic.is_none() {
                 match run_solve_all(w, &kb, q) {
-                    Ok(strings) => {
+                    Ok(None) => {}
+                    Ok(Some((strings, sa_wall, sa_cpu))) => {
                         w.count("solve_all_calls", 1);
                         // expected strings: rendered by the harness from the answers of the
                         // twin next_solution history (itself judged against the reference above)
                         let expect: Vec<Option<String>> = im.steps.iter().filter_map(|s| s.ans.as_ref()).map(|a| format_answer(&qn, a)).collect();
                         let twin: Vec<String> = im.steps.iter().filter(|s| s.ans.is_some()).filter_map(|s| s.fmt.clone()).collect();
-                        let mut bad = strings.len() != expect.len();
+                        // a search that really took longer than the limit may report its timeout (C23): what it
+                        // returned before the message must then be a prefix of the answers
+                        let legit_timeout = strings.last().map_or(false, |s| s.starts_with("Query timed out")) && sa_wall >= 0.9;
+                        let strings: Vec<String> = if legit_timeout { strings[..strings.len() - 1].to_vec() } else { strings };
+                        if legit_timeout {
+                            w.count("solve_all.timed_out_after_a_second", 1);
+                        }
+                        let mut bad = if legit_timeout { strings.len() > expect.len() } else { strings.len() != expect.len() };
                         if !bad {
                             for (i, s) in strings.iter().enumerate() {
                                 match &expect[i] {
@@ -400,7 +441,7 @@ pub fn worker(prop: &str, tier: &str) {
                             }
                         }
                         if bad {
-                            viols.push(("C01".into(), format!("solve_all-mismatch:{}:{}", case.family, goal_kinds(&case.prog)), format!("solve_all returned {:?}, reference answers {:?} — {}", strings, rf.steps.iter().filter_map(|s| s.0.as_ref().map(|a| a.text_ids())).collect::<Vec<_>>(), program_text(&case.prog) + "  ?- " + &q.text())));
+                            viols.push(("C01".into(), format!("solve_all-mismatch:{}:{}", case.family, goal_kinds(&case.prog)), format!("solve_all (wall {:.3} s, cpu {:.3} s) returned {:?}, reference answers {:?} — {}", sa_wall, sa_cpu, strings, rf.steps.iter().filter_map(|s| s.0.as_ref().map(|a| a.text_ids())).collect::<Vec<_>>(), program_text(&case.prog) + "  ?- " + &q.text())));
                         }
                     }
                     Err(p) => viols.push(("C01".into(), format!("solve_all-panic:{}", case.family), format!("solve_all panicked: {}", p))),
@@ -496,7 +537,8 @@ pub fn replay(wit: &Value) -> bool {
     let family = wit["family"].as_str().unwrap_or("core").to_string();
     println!("program: {}", program_text(&prog));
     println!("query  : {}", q.text());
-    let rf = refsolve::run(&prog, &number_query(&q), BUDGET, MAX_ANSWERS);
+    let budget = if family.ends_with("scale") { BUDGET_SCALE } else { BUDGET };
+    let rf = refsolve::run(&prog, &number_query(&q), budget, MAX_ANSWERS);
     if let Some(s) = &rf.skipped {
         println!("reference: not judged ({})", s);
     }
@@ -532,8 +574,8 @@ pub fn replay(wit: &Value) -> bool {
     }
     let main_prop = prop_of_family(&family);
     let mut vs = judge(main_prop, &family, &prog, &q, &rf, &runs[0]).viols;
-    if !vs.is_empty() && family == "cut" {
-        if let Some(vars) = refsolve::run_variants(&prog, &number_query(&q), BUDGET, MAX_ANSWERS, MAX_VARIANT_RUNS) {
+    if !vs.is_empty() && family.split('@').next() == Some("cut") {
+        if let Some(vars) = refsolve::run_variants(&prog, &number_query(&q), budget, MAX_ANSWERS, MAX_VARIANT_RUNS) {
             eprintln!("{} behaviours are acceptable under C02 for this history", vars.len());
             for (vi, alt) in vars.iter().enumerate() {
                 eprintln!("  variant {}: {:?}", vi, alt.steps.iter().map(|s| ans_text(&s.0)).collect::<Vec<_>>());
